@@ -1,5 +1,181 @@
-import CachedModel
+/-
+  C07  put never overwrites; "key already exists" only for keys that can be read.
+
+  Proved: (1) a put (all four variants) of a physically present key — in particular of every readable key — is
+  answered on the spot with `KeyAlreadyExists` and changes nothing but the new acknowledgement; the worker-side
+  re-check does the same for a duplicate that was queued meanwhile; (2) a put of a physically ABSENT key is never
+  answered `KeyAlreadyExists`, neither on the spot nor by the worker: admission alone decides.
+  The property's second half is FALSE of the code for keys that read as absent but are still physically present
+  (past their time-to-live and not yet swept): `C07_counterexample`; hence `..._partial` in the names.
+-/
+import CachedProofs.Lemmas.AMap
+import CachedModel.State
 
 namespace Cached
+
+/-- what every rejected-on-the-spot put returns: the state with one more (already completed) acknowledgement -/
+def rejectedExists (s : State) : State × Out :=
+  ({ s with acks := s.acks ++ [.rejected .keyAlreadyExists] }, .ack s.acks.length (.rejected .keyAlreadyExists))
+
+theorem contains_of_get? {s : State} {k : Nat} {e : Entry} (h : s.store.get? k = some e) : s.store.contains k = true := by
+  simp [AMap.contains, h]
+
+/-- **Readable (indeed: physically present) keys are never overwritten**, all four variants:
+    value, weight, expiry, queue, weights, expiry index — everything except the list of acknowledgements is unchanged. -/
+theorem C07_present_rejected (s : State) (c k v ttl : Nat) (w : Int) (e : Entry)
+    (hsh : s.shutting = false) (hk : s.store.get? k = some e) :
+    (0 < s.cfg.weightOf v false → clientPut s c k v = rejectedExists s) ∧
+    (0 < w → clientPutW s c k v w = rejectedExists s) ∧
+    (0 < s.cfg.weightOf v true → clientPutTtl s c k v ttl = rejectedExists s) ∧
+    (0 < w → clientPutWTtl s c k v w ttl = rejectedExists s) := by
+  have hc := contains_of_get? hk
+  refine ⟨?_, ?_, ?_, ?_⟩ <;> intro hw
+  · have : ¬ s.cfg.weightOf v false ≤ 0 := by omega
+    simp [clientPut, this, hsh, clientPutChecked, hc, spotAck, rejectedExists]
+  · have : ¬ w ≤ 0 := by omega
+    simp [clientPutW, this, hsh, clientPutChecked, hc, spotAck, rejectedExists]
+  · have : ¬ s.cfg.weightOf v true ≤ 0 := by omega
+    simp [clientPutTtl, this, hsh, clientPutChecked, hc, spotAck, rejectedExists]
+  · have : ¬ w ≤ 0 := by omega
+    simp [clientPutWTtl, this, hsh, clientPutChecked, hc, spotAck, rejectedExists]
+
+/-- a readable key is physically present -/
+theorem readable_present (s s' : State) (k : Nat) (o o' : Oracle) (v : Nat)
+    (h : readKey s k o = .ok (s', some v, o')) : ∃ e, s.store.get? k = some e ∧ e.alive s.now = true ∧ e.value = v := by
+  unfold readKey at h
+  split at h
+  · rename_i e he
+    split at h
+    · rename_i ha
+      simp only [] at h
+      split at h
+      · simp only [Except.ok.injEq, Prod.mk.injEq, Option.some.injEq] at h
+        exact ⟨e, he, ha, h.2.1⟩
+      · cases h
+    · simp at h
+  · simp at h
+
+def Out.isExists : Out → Bool
+  | .ack _ (.rejected .keyAlreadyExists) => true
+  | _ => false
+
+theorem sendCmd_not_exists (s : State) (c : Nat) (cmd : Cmd) : (sendCmd s c cmd).2.isExists = false := by
+  unfold sendCmd; split
+  · rfl
+  · split <;> rfl
+
+/-- **A physically absent key is never refused with 'key already exists' on the spot** (all four variants). -/
+theorem C07_absent_not_rejected_on_the_spot (s : State) (c k v ttl : Nat) (w : Int) (hk : s.store.get? k = none) :
+    (clientPut s c k v).2.isExists = false ∧ (clientPutW s c k v w).2.isExists = false ∧
+    (clientPutTtl s c k v ttl).2.isExists = false ∧ (clientPutWTtl s c k v w ttl).2.isExists = false := by
+  have hc : s.store.contains k = false := by simp [AMap.contains, hk]
+  have hchk : ∀ (w : Int) (t : Option Nat), (clientPutChecked s c k v w t).2.isExists = false := by
+    intro w t
+    unfold clientPutChecked
+    simp only [hc, Bool.false_eq_true, if_false]
+    cases t <;> exact sendCmd_not_exists _ _ _
+  refine ⟨?_, ?_, ?_, ?_⟩
+  · unfold clientPut; simp only []; split; rfl; split; rfl; exact hchk _ _
+  · unfold clientPutW; split; rfl; split; rfl; exact hchk _ _
+  · unfold clientPutTtl; split; rfl; simp only []; split; rfl; exact hchk _ _
+  · unfold clientPutWTtl; split; rfl; split; rfl; exact hchk _ _
+
+/-- the loop of `create_space` only ever answers Accepted or 'not enough space' -/
+theorem createLoop_status (t : TinyLFU) (size : Nat) (w : Int) (incEst : Nat) :
+    ∀ (fuel : Nat) (a : Adm) (sample : List SKey) (o : Oracle) (ev : List Evicted) (pp : List SKey) (r : LoopResult),
+      createLoop t size w incEst fuel a sample o ev pp = .ok r → r.status = .accepted ∨ r.status = .rejected .noSpace := by
+  intro fuel
+  induction fuel with
+  | zero => intro a sample o ev pp r h; simp [createLoop] at h
+  | succ n ih =>
+    intro a sample o ev pp r h
+    unfold createLoop at h
+    split at h
+    · simp only [Except.ok.injEq] at h; subst h; exact Or.inl rfl
+    · split at h
+      · cases h
+      · split at h
+        · cases h
+        · simp only [Except.ok.injEq] at h; subst h; exact Or.inr rfl
+      · split at h
+        · cases h
+        · split at h
+          · cases h
+          · split at h
+            · simp only [Except.ok.injEq] at h; subst h; exact Or.inr rfl
+            · simp only [] at h
+              split at h
+              · cases h
+              · exact ih _ _ _ _ _ _ h
+
+theorem maybeAdd_status (t : TinyLFU) (size : Nat) (a : Adm) (id key hash : Nat) (w : Int) (o : Oracle) (r : AdmResult)
+    (h : maybeAdd t size a id key hash w o = .ok r) :
+    r.status = .accepted ∨ r.status = .rejected .noSpace ∨ r.status = .rejected .tooHeavy := by
+  unfold maybeAdd at h
+  split at h
+  · simp only [Except.ok.injEq] at h; subst h; exact Or.inr (Or.inr rfl)
+  · split at h
+    · simp only [Except.ok.injEq] at h; subst h; exact Or.inl rfl
+    · split at h
+      · cases h
+      · split at h
+        · cases h
+        · split at h
+          · cases h
+          · rename_i lr hlr
+            simp only [Except.ok.injEq] at h; subst h
+            rcases createLoop_status _ _ _ _ _ _ _ _ _ _ _ hlr with h1 | h1
+            · exact Or.inl h1
+            · exact Or.inr (Or.inl h1)
+
+/-- **…nor by the worker**: for a key that is physically absent when the worker runs the command, the status is
+    admission's (Accepted / not enough space / heavier than the cache). -/
+theorem C07_absent_decided_by_admission (s s1 : State) (id hash k v : Nat) (w : Int) (ttl : Option Nat) (o o' : Oracle)
+    (st : Status) (ie : Option Nat) (pp : List SKey) (ev : List Evicted) (hk : s.store.get? k = none)
+    (h : workerPut s id hash w k v ttl o = .ok (.done s1 st ie pp ev, o')) :
+    st = .accepted ∨ st = .rejected .noSpace ∨ st = .rejected .tooHeavy := by
+  have hc : s.store.contains k = false := by simp [AMap.contains, hk]
+  unfold workerPut at h
+  simp only [hc, Bool.false_eq_true, if_false] at h
+  split at h
+  · cases h
+  · rename_i r hr
+    have hst := maybeAdd_status _ _ _ _ _ _ _ _ _ hr
+    split at h
+    · rename_i hacc
+      cases ttl with
+      | none =>
+        simp only [Except.ok.injEq, Prod.mk.injEq, Exec.done.injEq] at h
+        exact Or.inl h.1.2.1.symm
+      | some t =>
+        simp only at h
+        split at h
+        · simp at h
+        · simp only [Except.ok.injEq, Prod.mk.injEq, Exec.done.injEq] at h
+          exact Or.inl h.1.2.1.symm
+    · simp only [Except.ok.injEq, Prod.mk.injEq, Exec.done.injEq] at h
+      rw [← h.1.2.1]; exact hst
+
+/-- the worker re-check: a queued put whose key has become present meanwhile is answered KeyAlreadyExists and
+    changes nothing (the repaired race of two un-awaited puts of one key) -/
+theorem C07_worker_recheck (s : State) (id hash k v : Nat) (w : Int) (ttl : Option Nat) (o : Oracle) (e : Entry)
+    (hk : s.store.get? k = some e) :
+    workerPut s id hash w k v ttl o = .ok (.done s (.rejected .keyAlreadyExists) none [] [], o) := by
+  simp [workerPut, contains_of_get? hk]
+
+/-- The second half of C07 fails for an expired-but-unswept key: it reads as absent, yet a put is refused with
+    'key already exists'. (History: put_with_weight_and_ttl(k=1, ttl 1 s); clock +2 s; no sweep.) -/
+def c07Witness : State :=
+  { (State.init { maxWeight := 100, shards := 2, cmdCap := 4, poolSize := 1, bufSize := 2, counters := 2 } 5000000000 [1, 2, 3, 4]) with
+    store := [(1, { value := 10, id := 1, expiry := some 4000000000, soft := false })],
+    adm := { max := 100, used := 5, kw := [(1, { key := 1, hash := 1, weight := 5 })] }, nextId := 2 }
+
+theorem C07_counterexample :
+    (match readKey c07Witness 1 {} with | .ok (_, v, _) => v | .error _ => some 0) = none ∧
+    (clientPutW c07Witness 0 1 11 3).2 = .ack 0 (.rejected .keyAlreadyExists) := by
+  constructor <;> rfl
+
+/-- Non-vacuity of `C07_present_rejected` / `C07_absent_not_rejected_on_the_spot`. -/
+example : c07Witness.shutting = false ∧ c07Witness.store.get? 1 ≠ none ∧ c07Witness.store.get? 2 = none := by decide
 
 end Cached
